@@ -1,1 +1,2 @@
-import GoitModel
+import GoitProofs.Lemmas.Bytes
+import GoitProofs.Props.C01
